@@ -13,40 +13,40 @@
 (* order the pipeline model predicts and the listing is exactly Pipeline(d, order).         *)
 EXTENDS Dir, MC_C07_data, TraceBase
 
-VARIABLES tid, l, verdict, pred
-tvars == <<dvars, tid, l, verdict, pred>>
+VARIABLES tid, l, verdict, pred, seen
+tvars == <<dvars, tid, l, verdict, pred, seen>>
 
 Ev == Traces[tid].events
 DirOf(i) == [sb |-> i.sb, handler |-> i.handler, ign |-> i.ign, sniff |-> i.sniff, kids |-> Range(i.kids)]
 
-TInit == /\ tid \in 1..NTraces /\ l = 1 /\ verdict = "ok" /\ pred = <<>>
+TInit == /\ tid \in 1..NTraces /\ l = 1 /\ verdict = "ok" /\ pred = <<>> /\ seen = <<>>
          /\ DirInit(DirOf(Traces[tid].init.d))
 
 Known == {"enum", "touches", "response"}
 
 Enum(e) ==
     IF pc = "start" /\ IsEnumOf(d, e.order)
-    THEN ListDir(e.order) /\ pred' = PredictedTouches(d, e.order) /\ verdict' = "ok"
-    ELSE UNCHANGED <<dvars, pred>> /\ verdict' = "unmatched"
+    THEN ListDir(e.order) /\ pred' = PredictedTouches(d, e.order) /\ verdict' = "ok" /\ UNCHANGED seen
+    ELSE UNCHANGED <<dvars, pred, seen>> /\ verdict' = "unmatched"
 
-Touches(e) ==
-    /\ UNCHANGED <<dvars, pred>> /\ verdict' = "ok"
-    /\ IF pc = "filter" /\ e.names = pred THEN TRUE ELSE RecordDrift(tid, l, "children inspected in another order than the model predicts")
+Touches(e) == UNCHANGED <<dvars, pred>> /\ seen' = e.names /\ verdict' = "ok"
 
 Response(e) ==
     LET obs == [kind |-> e.status, listing |-> e.listing]
         mdl == Pipeline(d, raw)
         v   == RobustClause(d, obs)
-    IN /\ p' = [p EXCEPT !.out = mdl] /\ pc' = "done" /\ UNCHANGED <<d, raw, j, pred>>
+    IN /\ p' = [p EXCEPT !.out = mdl] /\ pc' = "done" /\ UNCHANGED <<d, raw, j, pred, seen>>
        /\ verdict' = IF pc = "done" THEN "unmatched" ELSE v
-       /\ IF v # "ok" \/ (obs.kind = mdl.kind /\ obs.listing = mdl.listing) THEN TRUE
-          ELSE RecordDrift(tid, l, "listing differs from the pipeline model")
+       /\ (IF v # "ok" \/ (obs.kind = mdl.kind /\ obs.listing = mdl.listing) THEN TRUE
+           ELSE RecordDrift(tid, l, "listing differs from the pipeline model"))
+       /\ (IF v # "ok" \/ seen = pred THEN TRUE
+           ELSE RecordDrift(tid, l, "children inspected in another order than the model predicts"))
 
 Consume ==
     /\ l <= Len(Ev) /\ verdict = "ok"
     /\ l' = l + 1 /\ UNCHANGED tid
     /\ LET e == Ev[l] IN
-       IF e.ev \notin Known THEN UNCHANGED <<dvars, pred>> /\ verdict' = "unmatched"
+       IF e.ev \notin Known THEN UNCHANGED <<dvars, pred, seen>> /\ verdict' = "unmatched"
        ELSE CASE e.ev = "enum" -> Enum(e)
               [] e.ev = "touches" -> Touches(e)
               [] e.ev = "response" -> Response(e)
